@@ -9,22 +9,49 @@ use crate::reffn::{RefFn, SgrItem};
 use crate::src::Src;
 use crate::walk::{Event, WalkEnd, Walker};
 
-/// pen of a cell printed next / of a blank erased next / of a row scrolled in next
-fn observed_pens(wk: &Walker) -> [(PenSpec, &'static str); 3] {
+/// pen of a cell printed next and of the blanks produced next by every blank-producing
+/// operation (each on a fresh replica): EL, ED, ECH, ICH, DCH, IL, DL, SU, SD, LF-scroll, RI-scroll
+fn observed_pens(wk: &Walker) -> Vec<(PenSpec, &'static str)> {
+    let (cols, rows) = (wk.cols, wk.rows);
+    let top = wk.modes.top.min(rows - 1);
+    let bot = wk.modes.bot.min(rows - 1);
+    let mut out = vec![];
+    // (with origin mode on, CUP 1;1 lands on the top margin row: always read at cursor().row)
     let mut a = wk.replica();
     let _ = a.feed_str("\x18\x1b[1;1HX");
-    // (with origin mode on, CUP 1;1 lands on the top margin row)
-    let printed = PenSpec::of(a.view()[a.cursor().row][0].pen());
-    let mut b = wk.replica();
-    let _ = b.feed_str("\x18\x1b[1;1H\x1b[2K");
-    let (cols, rows) = b.size();
-    let erased = PenSpec::of(b.view()[b.cursor().row][cols - 1].pen());
-    // SU by `rows` empties the whole scroll region: its rows become blanks in the current
-    // pen; the tracker's top margin names a row inside the region
-    let mut c = wk.replica();
-    let _ = c.feed_str(&format!("\x18\x1b[{}S", rows));
-    let scrolled = PenSpec::of(c.view()[wk.modes.top.min(rows - 1)].cells()[0].pen());
-    [(printed, "printed cell"), (erased, "cell blanked by EL 2"), (scrolled, "row scrolled in by SU")]
+    out.push((PenSpec::of(a.view()[a.cursor().row][0].pen()), "printed cell"));
+    let at_cursor_row = |probe: &str, col: usize, what: &'static str, out: &mut Vec<(PenSpec, &'static str)>| {
+        let mut v = wk.replica();
+        let _ = v.feed_str(probe);
+        let r = v.cursor().row;
+        out.push((PenSpec::of(v.view()[r][col.min(cols - 1)].pen()), what));
+    };
+    at_cursor_row("\x18\x1b[1;1H\x1b[2K", cols - 1, "cell blanked by EL 2", &mut out);
+    at_cursor_row("\x18\x1b[1;1H\x1b[K", 0, "cell blanked by EL 0", &mut out);
+    at_cursor_row("\x18\x1b[1;1H\x1b[1K", 0, "cell blanked by EL 1", &mut out);
+    at_cursor_row("\x18\x1b[1;1H\x1b[J", cols - 1, "cell blanked by ED 0", &mut out);
+    at_cursor_row("\x18\x1b[1;1H\x1b[2J", 0, "cell blanked by ED 2", &mut out);
+    at_cursor_row("\x18\x1b[1;1H\x1b[X", 0, "cell blanked by ECH", &mut out);
+    at_cursor_row("\x18\x1b[1;1H\x1b[@", 0, "cell inserted by ICH", &mut out);
+    at_cursor_row("\x18\x1b[1;1H\x1b[P", cols - 1, "cell vacated by DCH", &mut out);
+    // row-level blanks: the tracker's margins name rows inside the scroll region
+    let row_probe = |probe: String, row: usize, what: &'static str, out: &mut Vec<(PenSpec, &'static str)>| {
+        let mut v = wk.replica();
+        let _ = v.feed_str(&probe);
+        out.push((PenSpec::of(v.view()[row].cells()[0].pen()), what));
+    };
+    row_probe(format!("\x18\x1b[{}S", rows), top, "row scrolled in by SU (whole region)", &mut out);
+    row_probe("\x18\x1b[S".to_string(), bot, "row scrolled in by SU 1", &mut out);
+    row_probe("\x18\x1b[T".to_string(), top, "row scrolled in by SD 1", &mut out);
+    // IL / DL / LF / RI need the cursor inside the region: CUP 1;1 with origin mode toggled
+    // off would destroy state, so address the row relative to the tracker's origin mode
+    let cup_top = if wk.modes.origin { "\x1b[1;1H".to_string() } else { format!("\x1b[{};1H", top + 1) };
+    let cup_bot = if wk.modes.origin { "\x1b[999;1H".to_string() } else { format!("\x1b[{};1H", bot + 1) };
+    row_probe(format!("\x18{}\x1b[L", cup_top), top, "row inserted by IL", &mut out);
+    row_probe(format!("\x18{}\x1b[M", cup_top), bot, "row vacated by DL", &mut out);
+    row_probe(format!("\x18{}\n", cup_bot), bot, "row scrolled in by LF on the bottom margin", &mut out);
+    row_probe(format!("\x18{}\x1bM", cup_top), top, "row scrolled in by RI on the top margin", &mut out);
+    out
 }
 
 pub fn judge(_part: &str, case: &Case, tally: &mut Tally) -> Verdict {
@@ -224,7 +251,7 @@ pub fn run(env: &Env) -> PropRun {
     PropRun {
         parts,
         meta: EvidenceMeta {
-            rule: "The pen model is the left fold of the SGR items decoded by the reference parser per the statement (bold/faint exclusive, 21/22 clear both, unknown codes skipped). After every call containing an SGR the model pen must equal, through the public accessors, the pen of (i) a cell printed next, (ii) a cell blanked by EL 2, (iii) a row scrolled in by SU - each on a fresh replica. Non-trivial = a control with >= 2 items including a colour form or a reset in the middle.".into(),
+            rule: "The pen model is the left fold of the SGR items decoded by the reference parser per the statement (bold/faint exclusive, 21/22 clear both, unknown codes skipped). After every call containing an SGR the model pen must equal, through the public accessors, the pen of a cell printed next and of the blanks produced next by EL 0/1/2, ED 0/2, ECH, ICH, DCH, IL, DL, SU (1 and whole region), SD, LF on the bottom margin and RI on the top margin - each on a fresh replica. Non-trivial = a control with >= 2 items including a colour form or a reset in the middle.".into(),
             assumptions: vec!["only well-formed SGR parameters are generated (malformed colour introducers are C01's business)".into()],
             not_compared: vec!["malformed SGR 38/48 forms".into()],
         },
